@@ -270,6 +270,7 @@ def run(ck):
         ck.floor("C12-R4", "normal exits of the hunk writer loop", len(exits), 1)
     r6(ck, hw)
     r7(ck, hh)
+    r8_names_written_in_a_readable_form(ck, hdr)
 
 
 def r6(ck, hw):
@@ -371,6 +372,58 @@ def r6(ck, hw):
         else:
             ck.violate(rule, "line marker is one of '+', '-', ' '", "marker byte %r" % mk, hw.where(t2))
     ck.floor(rule, "line writes in the hunk writer", n, 3)
+
+
+def r8_names_written_in_a_readable_form(ck, hdr):
+    """A name is read back in its plain form only up to the first white-space byte (parser: is_whitespace).  So wherever the writer
+    formats a path into a header line, it has to go through a function that can switch to the quoted form, and the bytes that make it
+    switch must include every byte the parser treats as white space."""
+    from .. import seqmodel
+    prog = ck.prog
+    rule = "C12-R8"
+    isw = ck.anchor("libpatch::patch::unified::parser::is_whitespace")
+    if isw is None:
+        return
+    try:
+        ws = [c for c in range(256) if seqmodel.eval_pure(isw, [c])]
+    except seqmodel.Unsupported as ex:
+        ck.violate(rule, "the parser's white-space class is a byte predicate", "cannot evaluate is_whitespace (%s)" % ex, isw.where())
+        return
+    ck.require(6 <= len(ws) <= 16 and 0x20 in ws, rule, "the parser's white-space class is a byte predicate", "is_whitespace accepts %s" % ws, isw.where(),
+               ok_detail="bytes %s end a plain file name" % ws)
+    n = 0
+    writer_fns = [f for f in prog.fns.values() if f.file == WRITER_FILE]
+    for fn in sorted(writer_fns, key=lambda f: f.id):
+        for bb, t in fn.calls():
+            if fn.blocks[bb]["cleanup"] or not (callee_of(t).get("rpath") or "").endswith("std::path::Path::display"):
+                continue
+            n += 1
+            # the function that formats the path: does it also have a quoting branch, taken on a predicate over the name's bytes?
+            host = fn if fn.kind != "Closure" else prog.fns.get(fn.parent, fn)
+            preds = []
+            for b2, t2 in host.calls():
+                last = (callee_of(t2).get("path") or "").split("::")[-1]
+                if last in ("any", "all", "position", "find") and len(t2["args"]) == 2:
+                    ce = df.operand_expr(host, t2["args"][1])
+                    cl = prog.fns.get(ce[1]) if isinstance(ce, tuple) and ce and ce[0] == "closure" else None
+                    if cl is not None and cl.arg_count == 2 and "u8" in cl.local_ty(2):
+                        preds.append((last, cl))
+            good = False
+            detail = "the path is formatted with Path::display() in a function that has no test of the name's bytes: a name with white space in it is " \
+                     "written in the plain form, which the parser reads back only up to the first blank"
+            for last, cl in preds:
+                try:
+                    forcing = [c for c in range(256) if seqmodel.eval_pure(cl, [0, c])]
+                except seqmodel.Unsupported:
+                    continue
+                missing = [c for c in ws if (c in forcing) != (last in ("any", "position", "find"))]
+                if not missing:
+                    good = True
+                else:
+                    detail = "the bytes that make the writer quote a name (%s...) do not include the white-space bytes %s of the parser" % (forcing[:8], missing)
+            ck.require(good, rule, "a path is formatted into a header line only by code that quotes names with white space (%s)" % host.id.split("::")[-2],
+                       detail, fn.where(t), ok_detail="the quoting test covers every byte is_whitespace() accepts")
+    ck.floor(rule, "places where the writer formats a path", n, 1)
 
 
 def r7(ck, hh):
